@@ -703,9 +703,18 @@ def run_ledger(ctx, focus, res=None):
             reloaded = CoinState.empty()
             read_ids = []
             try:
-                for b in st_.read_blocks_from_disk():
-                    reloaded = reloaded.add_block_no_validation(b)
-                    read_ids.append(b.hash())
+                read_ids = [b.hash() for b in st_.read_blocks_from_disk()]
+                # the node's own start-up routine (scripts/utils.read_chain_from_disk) on this store
+                import contextlib
+                import io as _io
+                import skepticoin.scripts.utils as _su
+                saved_instance = getattr(_bs.DefaultBlockStore, "instance", None)
+                _bs.DefaultBlockStore.instance = st_
+                try:
+                    with contextlib.redirect_stdout(_io.StringIO()):
+                        reloaded = _su.read_chain_from_disk()
+                finally:
+                    _bs.DefaultBlockStore.instance = saved_instance
             except Exception as e:
                 res.violations.append({"kind": "the chain state cannot be rebuilt from the block store after a restart: %r" % e,
                                        "tree": [b.serialize().hex() for b in tree.blocks]})
